@@ -90,7 +90,7 @@ def pipeline_reg(tier):
     progs = [{"c1": [D(1), D(2)] + STOP,
               "c2": [S("add_reducer", "r2"), S("add_mw", "m2"), S("add_sub", "s2")]}]
     return _i("pipe", progs, {1: 0, 2: 1}, cap=2, mws=("m1",), subs={"s1": {"kind": "direct"}, "s2": {"kind": "direct"}},
-              red_script={"r1": {0: red("D", eff("task")), 1: red("D")}}, max_tasks=1)
+              red_script={"r1": {0: red("D", eff("task")), 1: red("D")}}, max_tasks=1, fine_reg=True)
 
 
 def readers(tier):
